@@ -202,3 +202,135 @@ def from_pest(expr, rules, depth=0, ignore_neg=True):
             parts += [opt(x)] * (hi - lo)
         return seq(*parts) if parts else ("eps",)
     raise ValueError("pest node %s" % k)
+
+
+# ---------------------------------------------------------------------------------------
+# a small parser for the regex-crate syntax subset used in the repository, and language difference
+
+def parse_regex(src):
+    """-> (ast of the *whole-string* language, anchored_start, anchored_end, group names).  Unanchored ends are padded with ANY*.
+    Supported: literals, escapes \\d \\w \\. etc., classes [a-z0-9_], groups (..), (?<n>..), (?P<n>..), (?:..), | * + ?"""
+    pos = [0]
+    groups = []
+
+    def peek():
+        return src[pos[0]] if pos[0] < len(src) else None
+
+    def eat():
+        ch = src[pos[0]]
+        pos[0] += 1
+        return ch
+
+    def alt_():
+        items = [seq_()]
+        while peek() == "|":
+            eat()
+            items.append(seq_())
+        return items[0] if len(items) == 1 else ("alt", items)
+
+    def seq_():
+        items = []
+        while peek() is not None and peek() not in "|)":
+            items.append(rep_())
+        return ("seq", items) if len(items) != 1 else items[0]
+
+    def rep_():
+        a = atom_()
+        while peek() in ("*", "+", "?"):
+            op = eat()
+            a = {"*": star, "+": plus, "?": opt}[op](a)
+        return a
+
+    def esc(ch):
+        if ch == "d":
+            return ("cls", DIGIT)
+        if ch == "w":
+            return ("cls", ALNUM | frozenset("_"))
+        if ch == "s":
+            return ("cls", frozenset(" \t\n\r"))
+        return ("lit", ch)
+
+    def atom_():
+        ch = eat()
+        if ch == "(":
+            if src.startswith("?<", pos[0]) or src.startswith("?P<", pos[0]):
+                pos[0] = src.index("<", pos[0]) + 1
+                end = src.index(">", pos[0])
+                groups.append(src[pos[0]:end])
+                pos[0] = end + 1
+            elif src.startswith("?:", pos[0]):
+                pos[0] += 2
+            r = alt_()
+            if eat() != ")":
+                raise ValueError("unbalanced group in %r" % src)
+            return r
+        if ch == "[":
+            neg = False
+            if peek() == "^":
+                eat()
+                neg = True
+            chars = set()
+            while peek() != "]":
+                c = eat()
+                if c == "\\":
+                    e = esc(eat())
+                    chars |= set(e[1]) if e[0] == "cls" else {e[1]}
+                    continue
+                if peek() == "-" and src[pos[0] + 1] != "]":
+                    eat()
+                    hi = eat()
+                    chars |= {chr(x) for x in range(ord(c), ord(hi) + 1)}
+                else:
+                    chars.add(c)
+            eat()
+            return ("cls", frozenset(ALPHABET - chars if neg else chars))
+        if ch == "\\":
+            return esc(eat())
+        if ch == ".":
+            return ("cls", ALPHABET - frozenset("\n"))
+        if ch in "^$":
+            raise ValueError("anchor inside the expression: %r" % src)
+        return ("lit", ch)
+
+    s = src
+    a_start = s.startswith("^")
+    a_end = s.endswith("$") and not s.endswith("\\$")
+    src = s[1 if a_start else 0: len(s) - 1 if a_end else len(s)]
+    body = alt_()
+    if pos[0] != len(src):
+        raise ValueError("cannot parse regex %r" % s)
+    parts = ([] if a_start else [star(("cls", ALPHABET))]) + [body] + ([] if a_end else [star(("cls", ALPHABET))])
+    return (("seq", parts), a_start, a_end, groups)
+
+
+def _dfa_step(n, cur, ch):
+    nx = set()
+    for st in cur:
+        for cs, t in n.trans[st]:
+            if ch in cs:
+                nx.add(t)
+    return closure(n, nx)
+
+
+def difference_witness(r1, r2, alphabet=None, max_states=20000):
+    """A string accepted by exactly one of r1, r2 (shortest), or None when the languages are equal over `alphabet`."""
+    a, b = build(r1), build(r2)
+    alphabet = sorted(alphabet or ALPHABET)
+    start = (closure(a, {a.start}), closure(b, {b.start}))
+    seen = {start: ""}
+    frontier = [start]
+    while frontier:
+        nxt = []
+        for st in frontier:
+            sa, sb = st
+            if (a.accept in sa) != (b.accept in sb):
+                return seen[st]
+            for ch in alphabet:
+                t = (_dfa_step(a, sa, ch), _dfa_step(b, sb, ch))
+                if t not in seen:
+                    seen[t] = seen[st] + ch
+                    nxt.append(t)
+                    if len(seen) > max_states:
+                        raise ValueError("state explosion")
+        frontier = nxt
+    return None
